@@ -3,6 +3,7 @@ package engine
 import (
 	"fmt"
 	"math"
+	"path/filepath"
 	"math/rand/v2"
 	"strconv"
 	"strings"
@@ -74,7 +75,27 @@ func (l Layout) wtList() wt.ArchiveInfoList {
 }
 
 func (l Layout) create(path string, opts ...wt.Option) (*wt.Whisper, error) {
-	return wt.Create(path, l.wtList(), wtMethod(l.Method), float32(l.Xff), opts...)
+	return wt.Create(path, l.wtListVariant(hashStr(filepath.Base(path)+"|"+l.String()+"|"+methodName(l.Method))), wtMethod(l.Method), float32(l.Xff), opts...)
+}
+
+// wtListVariant builds the archive list in one of the ways a caller may: from
+// fresh NewArchiveInfo values, by parsing the retention string, or as a slice
+// of a longer parsed list (whose entries carry the offsets of that longer
+// list) - the file created from it must be the same in every case.
+func (l Layout) wtListVariant(h uint64) wt.ArchiveInfoList {
+	switch h % 5 {
+	case 0:
+		if al, err := wt.ParseArchiveInfoList(l.String()); err == nil {
+			return al
+		}
+	case 1:
+		last := l.Archs[len(l.Archs)-1]
+		longer := fmt.Sprintf("%s,%ds:%ds", l.String(), last.S*2, last.S*2*(last.N+3))
+		if al, err := wt.ParseArchiveInfoList(longer); err == nil && len(al) == len(l.Archs)+1 {
+			return al[:len(l.Archs)]
+		}
+	}
+	return l.wtList()
 }
 
 // wtMethod maps the format's method number (1 average, 2 sum, 3 last, 4 max,
